@@ -455,6 +455,12 @@ def run_radar(script):
                 w = rd.wait_exit()
                 if w == 'timeout':
                     obs['notes'].append('no-exit-after-quit')
+            elif op == 'wait_exit_or_hb':
+                end = time.monotonic() + T_SYNC
+                while not rd.exited() and rd.scr.hb < 2:
+                    if time.monotonic() > end:
+                        raise Machinery('subject neither exited nor drew within %.0f s' % T_SYNC)
+                    rd.pump(0.05)
             elif op == 'wait_exit':
                 w = rd.wait_exit()
                 if w == 'timeout':
